@@ -76,6 +76,10 @@ type Contract struct {
 	Ghosts    []GhostStmt
 	Thread    bool
 	Terminates bool // every loop of the function needs a variant (or is a range loop)
+	Atomic      bool       // trusted primitive that takes effect atomically (one linearization point)
+	Linearizable bool      // verified under interference: see linear.go
+	Shared      []AssignTarget // the shared abstract state other threads may change between primitive calls
+	ObjInvs     []*Clause  // object invariants: assumed at entry, proved at every return
 	ThreadWG  ast.Expr // the WaitGroup whose Done the thread calls exactly once
 	GhostTags []string
 	Probes    []ProbeDef
@@ -436,6 +440,35 @@ func (s *Specs) loadSpecFile(w *World, path string, pkg *packages.Package, trust
 				}
 				cur.ThreadWG = e
 			}
+		case "atomic":
+			if cur == nil {
+				return fail(l, "atomic outside contract")
+			}
+			cur.Atomic = true
+		case "linearizable":
+			if cur == nil {
+				return fail(l, "linearizable outside contract")
+			}
+			cur.Linearizable = true
+		case "shared":
+			if cur == nil {
+				return fail(l, "shared outside contract")
+			}
+			ts, _, err := parseAssigns(rest, path, l.line)
+			if err != nil {
+				return err
+			}
+			cur.Shared = append(cur.Shared, ts...)
+		case "object-invariant":
+			if cur == nil {
+				return fail(l, "object-invariant outside contract")
+			}
+			c, err := parseClause(rest, path, l.line)
+			if err != nil {
+				return err
+			}
+			c.Pkg = pkg
+			cur.ObjInvs = append(cur.ObjInvs, c)
 		case "terminates":
 			if cur == nil {
 				return fail(l, "terminates outside contract")
